@@ -116,3 +116,10 @@ def run(ctx, config='rel-all'):
         ctx.violation('R3', i['self'], 'unsafe-Sync', 'unexpected unsafe impl Sync for %s' % i['self'], i.get('span'))
 
 
+    # ---- R4 'one arena is only ever driven by one thread': nothing that can reach an arena (or carry values that can) is
+    # accepted by rustc as Send / Sync.  These are the compile-verdict witnesses and the auto-trait audit of C05 (W1 thread
+    # families, R3 Send/Sync audit incl. payload probes), evaluated here as C20.R4
+    if config == 'rel-all':
+        from .. import runner
+        from . import c05
+        c05.run(runner.Sub(ctx, 'R4', 'C05'), config)
